@@ -31,6 +31,9 @@ var propC11 = &pProp{
 				o := drawOpts(r, gp, 30, 25)
 				o.AllowInvalidUTF8 = false
 				o.MaxExpr = 0
+				if gp.Has["InitState"] && r.chance(1, 4) {
+					o.InitState = [][2]string{{"k0", "init"}}
+				}
 				if gp.LeftRec {
 					o.Memoize = false // the model (needed to know which errors seed growing keeps) has no memo
 				}
